@@ -15,9 +15,18 @@
 #include "hex.hpp"
 #include "hexsimio.hpp"
 
+#ifdef HEX_VERIF
+// Verification hook: lets an external harness plant and read back the
+// architectural state. Has no effect unless HEX_VERIF is defined.
+struct HexVerifAccess;
+#endif
+
 namespace hexsim {
 
 class Processor {
+#ifdef HEX_VERIF
+  friend struct ::HexVerifAccess;
+#endif
 
   // Constants.
   static const size_t MEMORY_SIZE_WORDS = hex::MAX_MEMORY_SIZE_WORDS;
